@@ -151,7 +151,8 @@ def u_swu_g1(ctx):
         # closed fact: g(x) = x^3 + A'x + B' has no root (E' has odd order: no point with y = 0), instantiated where needed
         check_sswu_result(path, q, t, A, B, Z, res, path.ghost.get("sq", True), "")
     ctx.ex.run(body, q)
-    ctx.assume("L-SQRT34/Euler for sqrt_division_FQ (Lean Fields.lean sqrt34_check_iff, sqrt34_of_not_isSquare): ok <=> u/v square; not ok -> r^2 v = -u")
+    ctx.trust("contract of sqrt_division_FQ at the call site (ok <=> u/v square; not ok -> r^2 v = -u): proved from the real source by unit "
+              "swu.sqrt_division_FQ.complete with Euler's criterion (Lean Fields.lean)")
 
 
 UNITS["swu.optimized_swu_G1"] = Unit("swu.optimized_swu_G1", u_swu_g1, [f"{SWU}.optimized_swu_G1"], props=("C10",))
@@ -170,9 +171,11 @@ def u_swu_g2(ctx):
         t = fsym("t", K)
 
         class SqrtDivFQ2:
-            """sqrt_division_FQ2(u, v) at a call site (unit swu.sqrt_division_FQ2): (ok, r) with ok -> r^2 v = u.
-            L-SQRT8 (assumed; Lean Roots.lean sqrt_div_candidate_iff, sqrt_div_eta_iff): ok <=> u/v is a square, and when it is
-            not, one of the four eta_i r t^3 is a root of  Y^2 v = Z^3 t^6 u."""
+            """sqrt_division_FQ2(u, v) at a call site — the contract proved by unit swu.sqrt_division_FQ2.complete:
+               u/v a square      ->  (True, r)   with r^2 v = u
+               u/v a non-square  ->  (False, r)  with r^2 v = u chk,  chk^4 = -1     (chk = (u v^15)^((q^2-1)/8))
+            Nothing is assumed about the eta candidates: the loop of the real code is executed, and the path on which none of
+            them passes is shown contradictory from the table facts (closed fact swu.G2.root-tables)."""
 
             def apply(self2, interp, fv_, env):
                 p_ = cur()
@@ -180,36 +183,44 @@ def u_swu_g2(ctx):
                 r = fsym(f"r{next(p_.fresh_id)}", K)
                 if p_.choose(2, "gx1 square?") == 0:
                     p_.sig[-1] = "gx1 square"
-                    p_.assume(eqz(r * r * v_, u_), "sqrt_division_FQ2: ok -> r^2 v = u")
+                    p_.assume(eqz(r * r * v_, u_), "sqrt_division_FQ2: square -> r^2 v = u")
                     p_.ghost["sq"] = True
                     return (True, r)
-                i = p_.choose(4, "which eta")
-                p_.sig[-1] = f"gx1 non-square, eta{i} is the first that works"
-                # closed facts (eval swu.G2.etas): the eta_i^2 are pairwise different; r, t, u != 0 on this branch
-                # (t = 0 is the exceptional case, where gx1 is a square; u = v^3... g(x1) has no root; r is a candidate root of +-u/v)
-                for a_ in range(4):
-                    for b_ in range(a_ + 1, 4):
-                        p_.assume(nez(etas[a_] * etas[a_] - etas[b_] * etas[b_]), "eta_a^2 != eta_b^2")
-                for w_, why in ((r, "r != 0"), (t, "t != 0 off the exceptional case"), (u_, "g(x1) != 0")):
-                    p_.assume(nez(w_), why)
-                rhs = Z * Z * Z * t * t * t * t * t * t * u_
-                for j in range(i):
-                    cj = etas[j] * r * t * t * t
-                    p_.assume(nez(cj * cj * v_ - rhs), "earlier candidates fail")
-                c = etas[i] * r * t * t * t
-                p_.assume(eqz(c * c * v_, rhs), "L-SQRT8(eta): (eta_i r t^3)^2 v = Z^3 t^6 u")
+                p_.sig[-1] = "gx1 non-square"
+                chk = fsym(f"chk{next(p_.fresh_id)}", K)
+                p_.assume(nez(u_), "g(x1) != 0 (closed fact swu.no-y0)")
+                # chk^4 = -1 is part of the contract too; it is used only in the final case analysis (not needed by polyid)
+                p_.assume(eqz(r * r * v_, u_ * chk), "sqrt_division_FQ2: non-square -> r^2 v = u chk  (and chk^4 = -1)")
                 p_.ghost["sq"] = False
+                p_.ghost["nonsq"] = (r, chk, u_, v_)
                 return (False, r)
         it = mk_interp(ctx, q, contracts={f"{SWU}.sqrt_division_FQ2": SqrtDivFQ2()},
                        globals_={(SWU, "ISO_3_A"): A, (SWU, "ISO_3_B"): B, (SWU, "ISO_3_Z"): Z, (SWU, "ETAS"): list(etas), (SWU, "FQ2"): K})
         kind, res = call_top(it, fv, [t])
         if kind == "raise":
-            path.prove(f"{q}/raises.never", False, detail=f"raised {res.__name__}: the 'SWU failure' must be unreachable")
+            ns = path.ghost.get("nonsq")
+            if ns is None:
+                path.prove(f"{q}/raises.never", False, detail=f"raised {res.__name__} although gx1 is a square")
+                return
+            # the 'SWU failure' path.  Each failed test is  f_k = (eta_k r t^3)^2 v - Z^3 t^6 u != 0; polyid shows
+            # f_k = t^6 u (eta_k^2 chk - Z^3), so eta_k^2 chk != Z^3 for all four k — but chk^4 = -1 (contract of
+            # sqrt_division_FQ2) and the table fact  'for every w with w^4 = -1 some eta_k^2 w = Z^3'  (closed fact
+            # swu.G2.root-tables, checked on the four roots of X^4 + 1) say one of them is: the path is contradictory.
+            r, chk, u_, v_ = ns
+            t3 = t * t * t
+            rhs = Z * Z * Z * t3 * t3 * u_
+            ok = True
+            for e in etas:
+                f_k = (e * r * t3) * (e * r * t3) * v_ - rhs
+                ok = ok and path.pc.prove_nonzero(f_k.r.n) and path.pc.prove_zero((f_k - t3 * t3 * u_ * (e * e * chk - Z * Z * Z)).r.n)
+            path.prove(f"{q}/raises.never", ok,
+                       detail="'SWU failure': all four tests f_k = t^6 u (eta_k^2 chk - Z^3) fail, i.e. eta_k^2 chk != Z^3 for every k, "
+                              "although chk^4 = -1 — excluded by the table fact swu.G2.root-tables: unreachable")
             return
         check_sswu_result(path, q, t, A, B, Z, res, path.ghost.get("sq", True), "")
     ctx.ex.run(body, q)
-    ctx.assume("L-SQRT8 for sqrt_division_FQ2 and the eta candidates (assumed; core steps Lean-checked in Roots.lean): "
-               "ok <=> u/v square; otherwise one eta_i candidate is a root")
+    ctx.trust("contract of sqrt_division_FQ2 at the call site (square: r^2 v = u; non-square: r^2 v = u chk, chk^4 = -1): "
+              "proved from the real source by unit swu.sqrt_division_FQ2.complete")
 
 
 def u_sqrt_divisions(ctx):
@@ -241,6 +252,115 @@ def u_sqrt_divisions(ctx):
         ctx.ex.run(body, q)
 
 
+def u_sqrt_division_fq2_complete(ctx):
+    """the contract of sqrt_division_FQ2 that optimized_swu_G2 relies on (v != 0, u != 0):
+         u/v square      ->  (True, r),  r^2 v = u
+         u/v non-square  ->  (False, r), r^2 v = u chk  with chk^4 = -1
+    chk := c^2 (u v^15) for the havocked candidate power c = (u v^15)^((q^2-9)/16), so chk = (u v^15)^((q^2-1)/8)
+    (Lean Roots.lean sqrt_div_gamma_sq), chk^4 = (u v^15)^((q^2-1)/2) = +1 / -1 according to u v^15 — equivalently u/v —
+    being a square or not (Lean check_pow_four, Fields.lean euler_isSquare_iff / euler_not_isSquare_iff, isSquare_mul_pow15_iff).
+    polyid proves, for symbolic roots rho_k, that the k-th test of the loop is  f_k = u (rho_k^2 chk - 1);  the case analysis
+    then uses the table facts T1, T2 of the closed fact swu.G2.root-tables."""
+    q = f"{SWU}.sqrt_division_FQ2"
+    fv = get_function(ctx.prog, q)
+
+    def body(path):
+        K = FldKind("F")
+        square = path.choose(2, "u/v") == 0
+        path.sig[-1] = "u/v square" if square else "u/v non-square"
+        u, v = fsym("u", K), fsym("v", K)
+        path.assume(nez(v), "requires v != 0")
+        path.assume(nez(u), "requires u != 0 (g has no root: closed fact swu.no-y0)")
+        roots = [fsym(f"rho{i}", K) for i in range(4)]
+        it = mk_interp(ctx, q, globals_={(SWU, "POSITIVE_EIGHTH_ROOTS_OF_UNITY"): tuple(roots), (SWU, "FQ2"): K})
+        (kind, res), pows = run_with_bigpow(lambda: call_top(it, fv, [u, v]))
+        if kind == "raise":
+            path.prove(f"{q}/raises.never", False, detail=res.__name__)
+            return
+        a = u * v ** 15
+        okp = len(pows) == 1 and path.pc.prove_zero((pows[0][0] - a).r.n)
+        path.prove(f"{q}/ensures.one-bigpow", okp, detail="exactly one large exponentiation, of u v^15")
+        ok = isinstance(res, tuple) and len(res) == 2 and isinstance(res[1], Fld)
+        path.prove(f"{q}/ensures.shape", ok)
+        if not (ok and okp):
+            return
+        c = pows[0][2]
+        chk = c * c * a
+        gamma = c * u * v ** 7
+        flag, r = res
+        got = flag if isinstance(flag, bool) else path.case(flag, "is_valid_root")
+        f = [(rho * gamma) * (rho * gamma) * v - u for rho in roots]
+        ident = all(path.pc.prove_zero((f[k] - u * (roots[k] * roots[k] * chk - K(1))).r.n) for k in range(4))
+        path.prove(f"{q}/lemma.tests", ident, detail="the k-th test of the loop is f_k = u (rho_k^2 chk - 1), gamma = c u v^7, chk = c^2 u v^15")
+        matched = [k for k in range(4) if path.pc.prove_zero(f[k].r.n)]
+        failed = [k for k in range(4) if path.pc.prove_nonzero(f[k].r.n)]
+        if square:
+            # chk^4 = 1.  T1: some rho_k^2 chk = 1, i.e. some f_k = 0: the path on which all four tests fail is contradictory
+            if not got:
+                path.prove(f"{q}/ensures.complete", ident and len(failed) == 4,
+                           detail="u/v square but no candidate accepted: all rho_k^2 chk != 1 although chk^4 = 1 — excluded by table fact T1: unreachable")
+                return
+            path.prove(f"{q}/ensures.root", eqz(r * r * v, u), detail="square: (True, r) with r^2 v = u")
+        else:
+            # chk^4 = -1.  A passed test f_k = 0 gives rho_k^2 chk = 1 (u != 0), hence chk^4 = rho_k^-8 = 1 (T2): contradiction
+            if got:
+                path.prove(f"{q}/ensures.exact", ident and len(matched) >= 1,
+                           detail="u/v non-square but a candidate accepted: rho_k^2 chk = 1 forces chk^4 = 1 (T2), not -1: unreachable")
+                return
+            path.prove(f"{q}/ensures.gamma", eqz(r * r * v, u * chk), detail="non-square: (False, r) with r^2 v = u chk, chk^4 = -1")
+    ctx.ex.run(body, q + "[complete]")
+    from contracts.closed import lean_cite
+    lean_cite(ctx, [("Roots.lean", "sqrt_div_gamma_sq", "gamma^2 v = u (u v^15)^((q^2-1)/8)"),
+                    ("Roots.lean", "check_pow_four", "chk^4 is Euler's symbol of u v^15"),
+                    ("Fields.lean", "euler_isSquare_iff", "a^((Q-1)/2) = 1 iff a is a square"),
+                    ("Fields.lean", "euler_not_isSquare_iff", "a^((Q-1)/2) = -1 iff a is not a square"),
+                    ("Roots.lean", "isSquare_mul_pow15_iff", "u v^15 square iff u/v square")])
+
+
+def u_sqrt_division_fq_complete(ctx):
+    """the contract of sqrt_division_FQ that optimized_swu_G1 relies on (v != 0, u != 0):
+         u/v square -> (True, r), r^2 v = u;     u/v non-square -> (False, r), r^2 v = -u.
+    With c = (u v^3)^((p-3)/4) havocked, chi := c^2 (u v^3) = (u v^3)^((p-1)/2) is Euler's symbol of u v^3 = (u/v) v^4
+    (Lean Fields.lean euler_isSquare_iff / euler_not_isSquare_iff): +1 or -1; polyid proves r^2 v = u chi."""
+    q = f"{SWU}.sqrt_division_FQ"
+    fv = get_function(ctx.prog, q)
+
+    def body(path):
+        K = FldKind("F")
+        square = path.choose(2, "u/v") == 0
+        path.sig[-1] = "u/v square" if square else "u/v non-square"
+        u, v = fsym("u", K), fsym("v", K)
+        path.assume(nez(v), "requires v != 0")
+        path.assume(nez(u), "requires u != 0 (g has no root: closed fact swu.no-y0)")
+        it = mk_interp(ctx, q, globals_={(SWU, "FQ"): K})
+        (kind, res), pows = run_with_bigpow(lambda: call_top(it, fv, [u, v]))
+        if kind == "raise":
+            path.prove(f"{q}/raises.never", False, detail=res.__name__)
+            return
+        a = u * v * v * v
+        okp = len(pows) == 1 and path.pc.prove_zero((pows[0][0] - a).r.n)
+        path.prove(f"{q}/ensures.one-bigpow", okp, detail="exactly one large exponentiation, of u v^3")
+        ok = isinstance(res, tuple) and len(res) == 2 and isinstance(res[1], Fld)
+        path.prove(f"{q}/ensures.shape", ok)
+        if not (ok and okp):
+            return
+        c = pows[0][2]
+        chi = c * c * a
+        path.assume(eqz(chi, K(1) if square else -K(1)), "Euler: (u v^3)^((p-1)/2) = +1 for a square, -1 for a non-square")
+        flag, r = res
+        got = flag if isinstance(flag, bool) else path.case(flag, "is_valid_root")
+        path.prove(f"{q}/ensures.flag", got == square, detail="the test r^2 v - u = u (chi - 1) = 0 succeeds exactly for squares (char != 2, u != 0)")
+        path.prove(f"{q}/ensures.root", eqz(r * r * v, u if square else -u), detail="r^2 v = u for squares, -u for non-squares")
+    ctx.ex.run(body, q + "[complete]")
+    from contracts.closed import lean_cite
+    lean_cite(ctx, [("Fields.lean", "euler_isSquare_iff", "a^((p-1)/2) = 1 iff a is a square"),
+                    ("Fields.lean", "euler_not_isSquare_iff", "a^((p-1)/2) = -1 iff a is not a square")])
+
+
+UNITS["swu.sqrt_division_FQ.complete"] = Unit("swu.sqrt_division_FQ.complete", u_sqrt_division_fq_complete,
+                                               [f"{SWU}.sqrt_division_FQ"], props=("C10",))
+UNITS["swu.sqrt_division_FQ2.complete"] = Unit("swu.sqrt_division_FQ2.complete", u_sqrt_division_fq2_complete,
+                                                [f"{SWU}.sqrt_division_FQ2"], props=("C10",))
 UNITS["swu.optimized_swu_G2"] = Unit("swu.optimized_swu_G2", u_swu_g2, [f"{SWU}.optimized_swu_G2"], props=("C10",))
 UNITS["swu.sqrt_divisions"] = Unit("swu.sqrt_divisions", u_sqrt_divisions, [f"{SWU}.sqrt_division_FQ", f"{SWU}.sqrt_division_FQ2"],
                                    props=("C10",))
@@ -347,7 +467,7 @@ def u_h2c_closed(ctx):
     from contracts.closed import eval_facts, lean_cite
     eval_facts(ctx, ["swu.constants", "swu.G1.sqrt-constant", "swu.exceptional-x1-square", "swu.no-y0", "swu.G2.etas",
                      "swu.isogeny-G1-maps-Eprime-into-E", "swu.isogeny-G2-maps-Eprime-into-E", "bls.cofactors", "swu.sgn0-flip",
-                     "h2c.cofactor-kills-twist-cofactor"])
+                     "h2c.cofactor-kills-twist-cofactor", "swu.G2.root-tables"])
     lean_cite(ctx, [("Fields.lean", "sqrt34_check_iff", "sqrt_division_FQ: the test succeeds iff u/v is a square"),
                     ("Fields.lean", "sqrt34_of_not_isSquare", "otherwise result^2 v = -u"),
                     ("Roots.lean", "sqrt_div_candidate_iff", "sqrt_division_FQ2 candidates"), ("Roots.lean", "sqrt_div_eta_iff", "eta candidates"),
